@@ -33,11 +33,11 @@ theorem quitNow_asked {n : Nat} {roots : List Tree} {s : State} (h : Reachable n
             | exact ih2 w' hw'
             | trivial
 
-@[simp] theorem afterRecv_cnt (x : Nat) (b : Bool) (m : Msg) : (afterRecv b m).cnt x = m.cnt x := by
+@[simp] theorem afterRecv_cnt (x : Label) (b : Bool) (m : Msg) : (afterRecv b m).cnt x = m.cnt x := by
   cases b <;> rfl
 
 /-- One step never creates an entry, and loses one only after a visitor asked to quit. -/
-theorem step_conserved {n : Nat} {s s' : State} {w : Nat} (hs : Step n s w s') (x : Nat) :
+theorem step_conserved {n : Nat} {s s' : State} {w : Nat} (hs : Step n s w s') (x : Label) :
     s'.visited.count x + held n x s' ≤ s.visited.count x + held n x s ∧
     (s'.quitAsked = false → (s.quitNow = true → s.quitAsked = true) →
       s'.visited.count x + held n x s' = s.visited.count x + held n x s) := by
@@ -103,7 +103,7 @@ theorem step_quitNow_mono {n : Nat} {s s' : State} {w : Nat} (hs : Step n s w s'
 
 /-- No entry is ever handed out twice or invented; none is lost before a visitor asks to quit. -/
 theorem conserved {n : Nat} {roots : List Tree} {s : State} (hn : 0 < n)
-    (h : Reachable n roots s) (x : Nat) :
+    (h : Reachable n roots s) (x : Label) :
     s.visited.count x + held n x s ≤ cntL x roots ∧
     (s.quitAsked = false → s.visited.count x + held n x s = cntL x roots) := by
   induction h with
